@@ -205,7 +205,7 @@ def same(E, a, b, label, ignore_order=False, skip=(), **detail):
     ok = True
     if d.struct:
         ok = False
-        E.prove(False, label, diff=[(p, repr(x)[:80], repr(y)[:80]) for p, x, y in d.struct[:6]], **detail)
+        E.prove(False, label, diff=[(p, repr(x)[:80], repr(y)[:80]) for p, x, y in d.struct[:6]], ndiff=len(d.struct), **detail)
     if d.num:
         conj = E.all_of([E.eq(x, y) for (_, x, y) in d.num])
         if not E.prove(conj, label + ":values",
